@@ -46,6 +46,9 @@ class Renderer:
                         parts.append(self.const("(%s-5)" % a))
                 return "push." + ".".join(parts)
             return "push." + ".".join(str(x) for x in imm)
+        if op.startswith("adv."):
+            # advice injectors: the bare form has no parameter (key offset 0 / domain 0)
+            return op if form == "bare" or op in ("adv.insert_mem", "adv.insert_hperm") else "%s.%d" % (op, p)
         if op == "exp.u":
             return "exp.u%d" % p
         if op in ("dup", "dupw", "swap", "swapw", "movup", "movdn", "movupw", "movdnw", "adv_push",
